@@ -59,9 +59,15 @@ def setup(cx: Cx, ob: Ob):
             if isinstance(n, _ast.Constant) and isinstance(n.value, str) and 0 < len(n.value) <= 40 and n is not getattr(f.node.body[0], "value", None):
                 char_sets.append(n.value)
                 char_sets.extend(n.value)
-    alpha = build_alphabet(ok + [(r"[A-Za-z_][A-Za-z0-9._\-]*", 0)], ":[]/\n", kinds, char_sets)
+    preds = set()
+    for f in mod.functions.values():
+        for n in _ast.walk(f.node):
+            if isinstance(n, _ast.Call) and isinstance(n.func, _ast.Attribute) and n.func.attr in ("isalpha", "isalnum", "isdigit", "isdecimal", "isnumeric") and not n.args:
+                preds.add(n.func.attr)
+    alpha = build_alphabet(ok + [(r"[A-Za-z_][A-Za-z0-9._\-]*", 0)], ":[]/\n", kinds, char_sets, preds)
     sl = StrLang(cx.model, mod, alpha)
     sl.fold_kinds = kinds
+    sl.pred_kinds = preds
     return mod, sl
 
 
